@@ -228,7 +228,8 @@ theorem splitSlash_append_slash (c : Str) (hc : '/' ∉ c) (rest : Str) :
          | [] => [[x]]
          | w :: ws => (x :: w) :: ws) := by
       conv => lhs; unfold splitSlash
-      simp [hx]
+      simp only [hx, if_false]
+      rfl
     rw [e, ih hxs]
 
 theorem splitSlash_rootTarget (cwd : List Str) (hw : WfCwd cwd) (t : Str) :
